@@ -210,6 +210,14 @@ def run_func(ctx, case):
         out3 = np.array(G.mk_pot(spec).calculate(np.array(r)), dtype=float)
         if not np.array_equal(out, out3, equal_nan=True):
             ctx.violation('potential:not-repeatable', '%s: identically constructed object differs' % case['pot'])
+        # the same object re-used after sigma is changed (as createPRISM does on its private copy)
+        U2 = G.mk_pot(spec)
+        U2.calculate(np.array(r))
+        U2.sigma = sigma * 1.37
+        o = np.array(U2.calculate(np.array(r)), dtype=float)
+        o_f = np.array(G.mk_pot(dict(spec, sigma=sigma * 1.37)).calculate(np.array(r)), dtype=float)
+        if not np.array_equal(o, o_f, equal_nan=True):
+            ctx.violation('potential:result-depends-on-earlier-calls', '%s: object re-used with another sigma differs from a fresh object' % case['pot'])
         ctx.hook('elementwise_probe')
         perm = rng.permutation(len(r))
         o = np.array(G.mk_pot(spec).calculate(np.array(r[perm])), dtype=float)
